@@ -23,7 +23,8 @@ MANIFEST = {
             "from http.py); status in 2xx + {400,404,405,409,415,422} + 406 + 501-on-declared-routes; a request answered >= 400 leaves "
             "the store unchanged (handlers mutate only after the last raising step); 4xx/501 bodies are the Result structure, 406 plain. "
             "Tie: request class grid (route x method x id / idShort-path / body / header / query classes) through werkzeug.test.Client with "
-            "store snapshots before/after, compared with the model after every request.",
+            "store snapshots before/after, compared with the model after every request."
+            " Which reader takes a request body is regenerated from http.py and proved strict (failsafe = False along the MRO) and stripped exactly for level=core (c11_body_readers_strict).",
     "note": "partial: 'no request whatsoever raises' over arbitrary bytes also depends on werkzeug, lxml and json internals (exercised by the "
             "malformed stream and the oracle's structural mutations of JSON/XML documents over the whole metamodel, not proved); exceptions out of "
             "update_from are recorded findings; handlers outside the model (attachments, asset-information, shell/submodel superpath, $reference, "
